@@ -123,6 +123,26 @@ def check_graph(ctx, res, drv, adj, rep, backend, SC, DC, pending, order=None, l
     inp["ops"] = ",".join(toks)
     inp["ne"] = ne
     want = graph_canon(adj, ne)
+    # history: the property holds for EVERY call of solve(); the same solver object is asked again (and a third time after its result
+    # was read): it must return, and return the same circuit (a different one is validated on its own)
+    if ne + np_ <= 14 and (n <= 3 or ctx.rng.random() < (0.25 if ctx.quick else 0.5)):
+        res.count("branches", "history:repeated-solve")
+        for k in (2, 3):
+            try:
+                solver.solve()
+                score_k, circuit_k = solver.result
+            except Exception as e:  # noqa: BLE001
+                res.violation(f"solve:repeat:raises:{err_class(e)}",
+                              f"call number {k} of solve() on the same solver object raised {err_class(e)} (the first call returned a circuit)", input=inp)
+                break
+            if abs(float(score_k)) > 1e-9:
+                res.violation("solve:repeat:score-not-zero", f"call number {k} of solve() on the same solver object reports score {score_k}", input=inp)
+            toks_k, _ = tokens_of(circuit_k)
+            if per_wire(toks_k) != per_wire(toks) or circuit_k.n_emitters != ne:
+                inp_k = dict(inp, ops=",".join(toks_k), ne=circuit_k.n_emitters, call=k)
+                res.exact_break("solve:repeat:different-circuit", input=inp_k, impl=",".join(toks_k)[:1500], model=",".join(toks)[:1500])
+                pending.append((f"circ.check ne={circuit_k.n_emitters} np={np_} a={tu.bits(adj) or '-'} ops={inp_k['ops'] or '-'} max=256", inp_k))
+                break
     # both real backends, three settings
     import numpy.random as npr
 
@@ -193,6 +213,8 @@ def flush(res, drv, pending):
                 res.exact_break("solver.trs:error-class", input=clean, impl="ok", model=rep["_raw"][:200])
                 continue
             mtoks = [] if rep["ops"] == "-" else rep["ops"].split(",")
+            for tg in set(() if rep.get("tags", "-") == "-" else rep["tags"].split("|")):
+                res.count("branches", "tag:" + tg)
             if rep.get("zero") != "1":
                 # hypothesis `hfinal` of C02.solve_sound fails on this input: the proof does not cover it
                 res.exact_break("solver.trs:final-tableau-not-zero", input=clean, impl="ok", model=rep["_raw"][:300])
@@ -274,6 +296,7 @@ def run(ctx, budget=1.0):
         if len(pending) > 40:
             flush(res, drv, pending)
     res.extra["light_targets"] = n_light
+    guided_targets(ctx, res, drv, SC, DC, pending, int((1400 if ctx.quick else 12000) * budget))
     helper_correspondence(ctx, res, drv, int((80 if ctx.quick else 1500) * budget))
     if not ctx.quick:
         for _ in range(20):
@@ -286,6 +309,105 @@ def run(ctx, budget=1.0):
     res.extra["driver_lines"] = drv.n_lines
     drv.close()
     return res
+
+
+# targets on which the time-reversed measurement meets an emitter-only generator that is exactly -Z on one emitter (the emitter has to be
+# flipped right after its mid-circuit reset): smallest known instances, one disconnected and one connected (9 vertices, 2 emitters)
+CORPUS = [
+    (9, [(0, 2), (1, 3), (2, 3), (4, 6), (4, 7), (5, 6), (6, 7), (7, 8)]),
+    (9, [(0, 1), (0, 2), (1, 3), (2, 3), (3, 4), (4, 6), (4, 7), (5, 7), (5, 8), (6, 7)]),
+]
+
+
+def _conn_block(rng, k):
+    import networkx as nx
+
+    while True:
+        h = nx.gnp_random_graph(k, rng.uniform(0.3, 0.9), seed=rng.getrandbits(30))
+        if nx.is_connected(h):
+            return h
+
+
+def _block_target(rng):
+    """sparse target made of 2-3 small connected blocks on CONSECUTIVE vertex ranges (the emission order is the vertex order), optionally
+    bridged by single edges; 7..14 vertices, typically 2-3 emitters.  Emitters that become free between the blocks are what the
+    sign-sensitive branch of the time-reversed measurement acts on."""
+    import networkx as nx
+
+    k1, k2 = rng.randrange(3, 6), rng.randrange(4, 7)
+    g = nx.Graph()
+    g.add_edges_from(_conn_block(rng, k1).edges)
+    g.add_edges_from((u + k1, v + k1) for u, v in _conn_block(rng, k2).edges)
+    if rng.random() < 0.5:
+        g.add_edge(rng.randrange(k1), k1 + rng.randrange(k2))
+    if rng.random() < 0.3:
+        k3, off = rng.randrange(2, 4), k1 + k2
+        g.add_edges_from((u + off, v + off) for u, v in _conn_block(rng, k3).edges)
+        if rng.random() < 0.5:
+            g.add_edge(rng.randrange(off), off + rng.randrange(k3))
+    return nx.to_numpy_array(g, nodelist=sorted(g.nodes)).astype(int)
+
+
+def _tree_target(rng):
+    """tree on 8..11 vertices plus 0-3 extra edges, random vertex order"""
+    import networkx as nx
+
+    n = rng.randrange(8, 12)
+    g = nx.Graph()
+    g.add_nodes_from(range(n))
+    for v in range(1, n):
+        g.add_edge(v, rng.randrange(v))
+    for _ in range(rng.randrange(0, 4)):
+        u, v = rng.sample(range(n), 2)
+        g.add_edge(u, v)
+    adj = nx.to_numpy_array(g, nodelist=range(n)).astype(int)
+    p = rng.sample(range(n), n)
+    return adj[np.ix_(p, p)]
+
+
+def guided_targets(ctx, res, drv, SC, DC, pending, n_cand):
+    """Model-guided choice of targets.  The sign-sensitive steps of the solver (sign repair in `_single_out_emitter` and in
+    `_add_photon_absorption`) depend on the SHAPE and SIGN of the generator they act on; some combinations (e.g. a time-reversed measurement
+    whose emitter-only generator is exactly -Z on one emitter) occur on no connected graph with <= 6 vertices and on < 1 % of random sparse
+    targets.  The compiled solver model prints, for a target, the tags of the combinations its run meets (`solver.tags`, ~6 ms per target), so
+    many sparse candidates are screened with the model and the REAL solver is then run and validated on (a) the fixed corpus, (b) every
+    candidate that meets a sign-repair on a single-Z generator, (c) up to three candidates per other tag with a firing sign repair.
+    The tag histogram of the screened candidates and of all solved targets goes into the evidence (`branches`, keys `screen:` / `tag:`)."""
+    flush(res, drv, pending)
+    for n, edges in CORPUS:
+        adj = np.zeros((n, n), dtype=int)
+        for u, v in edges:
+            adj[u, v] = adj[v, u] = 1
+        check_graph(ctx, res, drv, adj, "g", "stab", SC, DC, pending, light=True)
+    cands = []
+    for i in range(n_cand):
+        adj = _block_target(ctx.rng) if i % 4 else _tree_target(ctx.rng)
+        if not (adj.sum(axis=0) == 0).any():
+            cands.append(adj)
+    lines = [f"solver.tags n={a.shape[0]} x={tu.bits(np.eye(a.shape[0], dtype=int))} z={tu.bits(a)} r={'0' * a.shape[0]}" for a in cands]
+    chosen, per_tag = [], {}
+    for adj, rep in zip(cands, drv.batch(lines)):
+        if rep["_status"] != "ok":
+            continue
+        tags = set(() if rep.get("tags", "-") == "-" else rep["tags"].split("|"))
+        for tg in tags:
+            res.count("branches", "screen:" + tg)
+        want = False
+        for tg in sorted(tags):
+            if not tg.endswith(":-"):
+                continue
+            cap = (6 if ctx.quick else 80) if tg == "trm:Z1:-" else (2 if ctx.quick else 6)
+            if per_tag.get(tg, 0) < cap:
+                per_tag[tg] = per_tag.get(tg, 0) + 1
+                want = True
+        if want:
+            chosen.append(adj)
+    res.extra["guided"] = {"screened": len(cands), "chosen": len(chosen), "per_tag": per_tag}
+    for adj in chosen:
+        check_graph(ctx, res, drv, adj, "s" if ctx.rng.random() < 0.5 else "g", "stab", SC, DC, pending, light=True)
+        if len(pending) > 40:
+            flush(res, drv, pending)
+    flush(res, drv, pending)
 
 
 def helper_correspondence(ctx, res, drv, count):
